@@ -212,6 +212,63 @@ def split_correspondence(chk):
     return bad, len(strings)
 
 
+def mlan_programs(rng, n=200):
+    """pickles whose imports the table-consulting analysis judges: one / several globals from the vocabulary,
+    from allow-listed modules (right and wrong names) and from unknown modules; imported only or called"""
+    from harness import asm
+    import fickling.ml as fml
+    known = [(m, n) for m, d in list(fml.ML_ALLOWLIST.items())[:40] for n in list(d)[:2]]
+    wrong = [(m, "zz_not_listed") for m in list(fml.ML_ALLOWLIST)[:12]]
+    pool = [tuple(g) for g in VOCAB] + known + wrong + [("zzverifroot.mod", "f"), ("os", "getcwd")]
+    progs_ = []
+    for g in pool:
+        progs_.append([("GLOBAL", g), "STOP"])
+        progs_.append([("PROTO", 2), ("GLOBAL", g), "EMPTY_TUPLE", "REDUCE", "STOP"])
+    for _ in range(n):
+        gs = [rng.choice(pool) for _ in range(rng.randrange(2, 6))]
+        p = ["MARK"]
+        for g in gs:
+            p.append(("GLOBAL", g))
+            if rng.random() < 0.4:
+                p += ["EMPTY_TUPLE", "REDUCE"]
+        progs_.append(p + ["TUPLE", "STOP"])
+    return [asm.assemble(p) for p in progs_]
+
+
+def mlan_correspondence(chk):
+    """ml.MLAllowlist (the static analysis that consults ML_ALLOWLIST) vs the model's MLAllowlist analysis over the
+    regenerated table -- fresh, while an environment with additions is active, and after deactivation"""
+    from harness import anlib
+    datas = mlan_programs(chk.rng)
+    adds = sorted({a for ad in ADDS if ad for a in ad} | {".".join(g) for g in VOCAB})
+    p = subprocess.run([PY, CHILD], input=json.dumps({"mlan": [d.hex() for d in datas], "adds": adds}),
+                       capture_output=True, text=True, env=env_child({"PYTHONDONTWRITEBYTECODE": "1"}),
+                       timeout=900, cwd=VERIF)
+    lines = [l for l in p.stdout.splitlines() if l.startswith("{")]
+    if p.returncode != 0 or not lines:
+        return [{"error": f"child failed rc={p.returncode}: {p.stderr[-400:]}"}], [], 0
+    real = json.loads(lines[-1])["mlan"]
+    qs, idx = [], []
+    for i, d in enumerate(datas):
+        mi = anlib.model_inputs(d)
+        if mi is not None:
+            ops, protos, stds, reprs = mi
+            qs.append(sx(["analyze_with", [wire("MLAllowlist")], ops, protos, stds, reprs]))
+            idx.append(i)
+    model = Driver().query(qs)
+    bad, leak = [], []
+    for j, i in enumerate(idx):
+        for phase in ("fresh", "active", "after"):
+            r = real[phase][i]
+            if r != real["fresh"][i]:
+                leak.append({"hex": datas[i].hex(), "phase": phase, "fresh": real["fresh"][i][:300], "then": r[:300]})
+            if r != model[j] and not (model[j].startswith("ERR") and r == "ERR"):
+                bad.append({"hex": datas[i].hex(), "phase": phase, "real": r[:300], "model": model[j][:300]})
+        chk.count()
+    chk.stats["table-consulting analysis (MLAllowlist) programs"] = len(idx)
+    return bad, leak, len(idx)
+
+
 def split_oracle(b):
     """C11 on one addition string, model-free: the permitted set is EXACTLY built-in + the addition, so of all
     the ways to read the text s as (module, name) only the cut at the last dot may be permitted through it"""
@@ -332,6 +389,13 @@ def main(tier, seed):
                    f"find_class of FicklingMLUnpickler(also_allow=[s]) on every cut of s, {nsplit} strings",
                    not split_bad, json.dumps(split_bad[:3]))
         bad += split_bad
+    if built:
+        an_bad, an_leak, nan = mlan_correspondence(chk)
+        chk.oblige("property oracle (model-free): the table-consulting static analysis answers the same before, "
+                   "during and after an activation with additions", not an_leak, json.dumps(an_leak[:3]))
+        chk.oblige(f"correspondence: ml.MLAllowlist analysis vs the model's MLAllowlist over the regenerated table, "
+                   f"{nan} programs x 3 phases", not an_bad, json.dumps(an_bad[:3]))
+        bad += an_leak + an_bad
     # the property itself, model-free, on every observed history (two-variable model: BASE, current additions)
     orc_bad = []
     for h, steps in runs_all:
@@ -349,6 +413,9 @@ def main(tier, seed):
         seen = set()
         # an addition that permits a pair other than its own rsplit is a concrete input for the property
         for b in bad:
+            if "phase" in b and "then" in b:
+                return {"oracle": "the static analysis that consults the built-in allowlist answers differently "
+                                  f"{b['phase']} an activation with additions", **b}
             why = split_oracle(b) if "addition" in b else None
             if why:
                 return {"oracle": why, "addition": b["addition"], "real_permits_cuts_at": b["real_permits_cuts_at"]}
